@@ -107,6 +107,12 @@ CLAIMED["C12"] = {
     "note": "Callbacks are matched by range (fold) / category and range (visitor): two distinct nodes with equal range and category are interchangeable for the walk; quick tier strides the generated programs (700 per sub-language).",
     "technique": "TLC trace validation of recorded Fold/Visitor callbacks against a TLA+ depth-first walk of the tree's node table; TLA+ rewriting model of the constant-tuple optimiser model-checked (idempotent, lossless, maximal) and replayed into the real optimiser",
 }
+CLAIMED["C06"] = {
+    "text": "StrLit.tla defines, over a character alphabet with one representative per decoder rule (backslash, both quotes, escape letters n f x u U N, a non-escape letter, octal and non-octal digits, a hexadecimal letter, LF, CR, a Latin-1 and an astral character, {BULLET}, ready-made 4/8-digit hexadecimal groups incl. a surrogate), the line-ending normalisation, where a literal ends (Closed) and its value (Dec: Python's escape rules per kind, raw literals, octal modulo 256 in bytes, unknown escapes kept) for 20 literal forms (text/bytes/raw/u x quote styles), every prefix spelling and implicit concatenation pairs; TLC enumerates every body up to MaxLen (3 quick / 4 thorough; backslash + every printable ASCII character and special in the sweep). NumLit.tla is the automaton of numeric literals (class, radix, cleaned digits, underscore placement, leading zeros) and TLC enumerates every literal up to 6/7 characters. Every case is validated against CPython's evaluation of the same source (disagreements = specification bugs, 0 at present), then the parser's Constant must carry exactly the value (floats bit for bit, integers exactly) and kind marker. Value sweeps cover all \\x and octal values, boundary \\u/\\U code points and named escapes; magnitude pools cover halfway and boundary doubles, random decimal strings and bit patterns, and integers up to thousands of digits in each radix.",
+    "design_ref": "DESIGN.md section 6 C06",
+    "note": "TLC integers are 32-bit: the numeric conversion itself (int(clean, radix), float(clean)) is the reference's; \\N{...} by sampled names; known finding F-C06-1 (U prefix kind marker).",
+    "technique": "TLA+ specifications of literal decoding (escape rules, literal termination, numeric-literal automaton) explored exhaustively by TLC as generators with computed values; CPython cross-validation of the specification; values replayed into the parser",
+}
 NOT_YET = {}
 
 def main():
